@@ -1,1 +1,2 @@
 import SqlairModel
+import SqlairProofs.Parser.Defs
